@@ -59,7 +59,7 @@ def payloads(kind, props=False):
     elif kind.startswith('fault:tok:'):
         out += [('bracket-dropped', 'drop'), ('bracket-doubled', 'double')]
     elif kind.startswith('fault:settings:'):
-        out += [('unknown-setting', 'unknown'), ('empty-settings', 'empty'), ('double-comma', 'dcomma'), ('trailing-comma', 'tcomma'), ('second-settings-list', 'twolists'),
+        out += [('unknown-setting', 'unknown'), ('empty-settings', 'empty'), ('double-comma', 'dcomma'), ('trailing-comma', 'tcomma'), ('second-settings-list', 'twolists'), ('unknown-setting', 'foreign'),
                 ('unknown-setting', 'unknown-kv-word'), ('unknown-setting', 'unknown-kv-number')]
         if not props:      # `key: 'string'` is a property when arbitrary properties are enabled
             out += [('unknown-setting', 'unknown-kv-string')]
@@ -187,6 +187,24 @@ HANDMADE = [      # (fault class, document): a closing quote that is escaped doe
     ('second-settings-list', 'Table a [headercolor: #fff] [note: \'n\'] {\n  x int\n}\n'),
     ('second-settings-list', 'Table a {\n  x int\n  indexes {\n    x [unique] [name: \'n\']\n  }\n}\n'),
     ('second-settings-list', 'Enum e {\n  a [note: \'n\'] [note: \'m\']\n}\n'),
+] + [
+    # a qualified name has at most schema.table(.column); blanks do not glue a type to what follows it
+    ('too-many-dotted-parts', 'Table t {\n  id int\n}\nTableGroup g {\n  public.t.x\n}\n'),
+    ('too-many-dotted-parts', 'Table t {\n  id int\n}\nTableGroup g {\n  t.extra.junk\n}\n'),
+    ('too-many-dotted-parts', 'Table t {\n  id int\n}\nTableGroup g {\n  a.b.c.d\n}\n'),
+    ('too-many-dotted-parts', 'Table a.b.c {\n  id int\n}\n'),
+    ('too-many-dotted-parts', 'Enum a.b.c {\n  x\n}\n'),
+    ('too-many-dotted-parts', 'Table t {\n  id int\n  x int\n}\nRef: a.b.t.id > t.x\n'),
+    ('too-many-dotted-parts', 'Table t {\n  id int\n  x int\n}\nRef: t.id > a.b.t.x\n'),
+    ('too-many-dotted-parts', 'Table t {\n  id int [ref: > a.b.t.id]\n}\n'),
+    ('blank-inside-type', 'Table t {\n  id int []\n}\n'),
+    ('blank-inside-type', 'Table t {\n  id int [] [pk]\n}\n'),
+    ('blank-inside-type', 'Table t {\n  name varchar (255)\n}\n'),
+    ('blank-inside-type', 'Table t {\n  name varchar (255) [pk]\n}\n'),
+    ('blank-inside-type', 'Table t {\n  kind crm . kind\n}\n'),
+    ('blank-inside-type', 'Table t {\n  kind crm .kind\n}\n'),
+    ('blank-inside-type', 'Table t {\n  kind crm. kind\n}\n'),
+    ('blank-inside-type', 'Table t {\n  amount decimal(10,2) []\n}\n'),
 ] + [
     # the number literal is digits[.digits]: nothing else is a number
     ('malformed-number', 'Table t {\n  a int [default: ' + lit + tail + ']\n}\n')
